@@ -178,6 +178,20 @@ func typeKey(t types.Type) string {
 		return "map[" + typeKey(x.Key()) + "]" + typeKey(x.Elem())
 	case *types.Chan:
 		return "chan " + typeKey(x.Elem())
+	case *types.Signature:
+		// identical function types have one key, whatever their parameter names
+		var ps, rs []string
+		for i := 0; i < x.Params().Len(); i++ {
+			ps = append(ps, typeKey(x.Params().At(i).Type()))
+		}
+		for i := 0; i < x.Results().Len(); i++ {
+			rs = append(rs, typeKey(x.Results().At(i).Type()))
+		}
+		v := ""
+		if x.Variadic() {
+			v = "..."
+		}
+		return "func(" + strings.Join(ps, ",") + v + ")(" + strings.Join(rs, ",") + ")"
 	}
 	return types.TypeString(t, qualifier)
 }
